@@ -34,7 +34,9 @@ RULE = ("Per type (B E J K N R S T) and direction: a dense uniform grid over the
         'and per the reference).'
         ' ThermocoupleScaling over arrays of 2^k - 1, 2^k, 2^k + 1 samples; a result must survive the next conversion '
         'of an equally long array.'
-        " Another thermocouple type's scaling object is created and used between construction and use.")
+        " Another thermocouple type's scaling object is created and used between construction and use."
+        " The inverse functions' error is also compared bin by bin (400 voltage bins) with a frozen profile of the "
+        'pinned tree (regression oracle).')
 ASSUMPTIONS = [
     "forward oracle trusts the transcription of the NIST tables shipped in thermocouples_reference (frozen JSON copy)",
     "inverse coefficients can only be judged through NIST's error bound (changes below the bound are invisible by definition)",
